@@ -69,15 +69,16 @@ func (l *LineFilterPlanner) Process(ctx *shared.PlannerContext) (sql.ISelect, er
 }
 
 func (l *LineFilterPlanner) doLike(likeOp string, val string) (sql.SQLCondition, error) {
-	enqVal, err := l.enquoteStr(val)
+	// escape the LIKE metacharacters of the value first, then quote the whole pattern as one SQL literal
+	val = strings.Replace(val, "\\", "\\\\", -1)
+	val = strings.Replace(val, "%", "\\%", -1)
+	val = strings.Replace(val, "_", "\\_", -1)
+	enqVal, err := l.enquoteStr("%" + val + "%")
 	if err != nil {
 		return nil, err
 	}
-	enqVal = strings.Trim(enqVal, `'`)
-	enqVal = strings.Replace(enqVal, "%", "\\%", -1)
-	enqVal = strings.Replace(enqVal, "_", "\\_", -1)
 	return sql.Eq(
-		sql.NewRawObject(fmt.Sprintf("%s(samples.string, '%%%s%%')", likeOp, enqVal)), sql.NewIntVal(1),
+		sql.NewRawObject(fmt.Sprintf("%s(samples.string, %s)", likeOp, enqVal)), sql.NewIntVal(1),
 	), nil
 }
 
